@@ -3836,7 +3836,9 @@ int EGLPNUM_TYPENAME_ILLlib_getbasis (
 	for (i = 0; i < nrows; i++)
 	{
 		j = qslp->rowmap[i];
-		if (qslp->rangeval && EGLPNUM_TYPENAME_EGlpNumIsNeqqZero (qslp->rangeval[i]))
+		/* same test as EGLPNUM_TYPENAME_ILLbasis_load: only a row that is ranged now can be
+		 * reported at upper (rangeval[] of a row that used to be ranged is stale) */
+		if (qslp->sense[i] == 'R')
 		{
 			switch (lp->vstat[j])
 			{
